@@ -300,7 +300,12 @@ class ProgGen(object):
             sig.ptext = getattr(src, 'ptext', None)
         self.register(sig, glob)
         self.features.add('global-let' if glob else 'let')
-        return ('\\global' if glob else '') + '\\let\\%s%s\\%s' % (name, r.choice(['=', '', ' = ', '= ']), src.name) + ' '
+        pre = ''
+        if glob and r.random() < 0.4:
+            # the same pair first as a local alias in the open group: the global one must still reach the outermost level
+            pre = '\\let\\%s\\%s ' % (name, src.name)
+            self.features.add('global-let-after-equal-local-let')
+        return pre + ('\\global' if glob else '') + '\\let\\%s%s\\%s' % (name, r.choice(['=', '', ' = ', '= ']), src.name) + ' '
 
     def gen_definer(self):
         """\\def\\a#1{\\def\\b##1{..#1..##1..}}  (NF-7: ## only inside a body that defines a macro)"""
